@@ -146,6 +146,6 @@ def run(ck):
     fl = ck.flow(gu)
     nonnull = lambda ev: ev.get("e") == "ret" and E.strip(ev.get("x") or {}).get("k") != "null"
     ck.require_fact("I1.url-inside-packet", fl, nonnull, E.m_cmp("<", E.m_is_ref("urlOffset"), E.m_is_ref("receivedPacketSize")), True, "return url")
-    exact = E.M(lambda t: E.strip(t).get("k") == "bin" and E.strip(t).get("op") == "==" and "strlen" in E.mentions(E.strip(t)["l"]) and E.m_is_ref("receivedPacketSize")(E.strip(t)["r"]), "urlOffset + strlen(url) + 1 == receivedPacketSize")
+    exact = E.m_cmp("==", E.M(lambda t: "strlen" in E.mentions(t), "urlOffset + strlen(url) + 1"), E.m_is_ref("receivedPacketSize"))      # either operand order
     ck.require_fact("I1.url-inside-packet", fl, nonnull, exact, True, "return url", why="(a URL without its terminator inside the packet would be used)")
     ck.assume("SNMP (lib/snmplib asn_parse_*) and use-after-free/abort freedom are not decided by this module; the window arithmetic of callers of the unpackers is trusted")
